@@ -227,18 +227,18 @@ class G:
         if k == "Select":
             b, bt = self.value(N(nv), el, d + 1)
             b, bt = self.scalarise(b, bt)
-            return call(A(v, "Select"), [lam(nv, b)]), ("it", bt)
+            return tc.op_call(r, v, "Select", lam(nv, b)), ("it", bt)
         if k == "Where":
             b, bt = self.value(N(nv), el, d + 1)
-            return call(A(v, "Where"), [lam(nv, self.boolean(b, bt))]), ("it", el)
+            return tc.op_call(r, v, "Where", lam(nv, self.boolean(b, bt)), 0.5), ("it", el)
         # SelectMany: the body must be iterable
         if self.s.elem(el) is not None and r.random() < 0.5:
-            return call(A(v, "SelectMany"), [lam(nv, N(nv))]), ("it", self.s.elem(el))       # flatten one level
+            return tc.op_call(r, v, "SelectMany", lam(nv, N(nv))), ("it", self.s.elem(el))       # flatten one level
         b, bt = self.value(N(nv), el, d + 1)
         be = self.s.elem(bt) if bt[0] in ("c", "it") else None
         if be is None:
-            return call(A(v, "Select"), [lam(nv, b)]), ("it", bt)
-        return call(A(v, "SelectMany"), [lam(nv, b)]), ("it", be)
+            return tc.op_call(r, v, "Select", lam(nv, b)), ("it", bt)
+        return tc.op_call(r, v, "SelectMany", lam(nv, b)), ("it", be)
 
     def boolean(self, b, bt):
         if bt == ("p", "bool"):
